@@ -17,14 +17,17 @@ import time
 from concurrent.futures import ThreadPoolExecutor
 
 ROOT = "/verif"
-REPO = "/repo"
-BUILD = os.path.join(ROOT, "build")
+# The registered commands always check /repo's working tree. The overrides exist for one purpose: trying the checks on a
+# scratch worktree with a seeded change (tools/seed_sweep) without touching /repo, /verif/evidence or /verif/replay.
+REPO = os.environ.get("VP_SCRATCH_REPO", "/repo")
+_OUT = os.environ.get("VP_SCRATCH_OUT")
+BUILD = os.path.join(_OUT, "build") if _OUT else os.path.join(ROOT, "build")
 COQ = os.path.join(ROOT, "coq")
 TARGET = os.path.join(BUILD, "target")
 CASES = os.path.join(BUILD, "cases")
 TMP = os.path.join(BUILD, "tmp")
-REPLAY = os.path.join(ROOT, "replay")
-EVID = os.path.join(ROOT, "evidence")
+REPLAY = os.path.join(_OUT or ROOT, "replay")
+EVID = os.path.join(_OUT or ROOT, "evidence")
 NPROC = os.cpu_count() or 4
 
 os.makedirs(BUILD, exist_ok=True)
